@@ -39,7 +39,7 @@ theorem hRA_of_eq (h1 : o'.cap = o.cap) (h2 : o'.threshold = o.threshold) (h3 : 
   fun _ _ _ l d => ⟨l, d.congr h1 h2 h3 h4 h5 h6 (fun _ => rfl) rfl h7 h8 h10⟩
 
 /-- An object-local update with the footprint of the object's flow preserves the invariant. -/
-theorem inv_of_local (h : Inv p) (s : Eff (· = y) p.a e') (u : LocalUpd p.a e' i o' em dq)
+theorem inv_of_local (h : InvCore p) (s : Eff (· = y) p.a e') (u : LocalUpd p.a e' i o' em dq)
     (ho : p.a.objs[i]? = some o) (hoy : o.fid = y) (ho' : o'.fid = y)
     (hem : ∀ m ∈ em, Msg.flow? m = some y ∧ m.isConnect = false)
     (hba : ba' = p.ba ∨ ∃ m, p.ba = m :: ba' ∧ ∀ z, Msg.flow? m = some z → z = y)
@@ -62,7 +62,7 @@ theorem inv_of_local (h : Inv p) (s : Eff (· = y) p.a e') (u : LocalUpd p.a e' 
     (hcap : o'.cap = o.cap ∧ o'.threshold = o.threshold)
     (hdq : ∀ x ∈ dq, x = y)
     (hg : ∀ k, k ≠ i → g'.wlog k = p.ga.wlog k ∧ g'.rlog k = p.ga.rlog k ∧ g'.eof k = p.ga.eof k) :
-    Inv { p with a := e', ga := g', ba := ba' } := by
+    InvCore { p with a := e', ga := g', ba := ba' } := by
   have hi : i < p.a.objs.length := by
     rcases Nat.lt_or_ge i p.a.objs.length with h1 | h1
     · exact h1
@@ -130,7 +130,7 @@ theorem noReset_nil : noReset [] := by intro m hm; cases hm
 
 /-- An update that leaves the receiving role of the object alone (write, shutdown). -/
 theorem inv_of_sender_upd {p : PS} {e' : EP} {g' : Ghost} {i y : Nat} {o o' : Obj} {em : List Msg}
-    (h : Inv p) (s : Eff (· = y) p.a e') (u : LocalUpd p.a e' i o' em [])
+    (h : InvCore p) (s : Eff (· = y) p.a e') (u : LocalUpd p.a e' i o' em [])
     (ho : p.a.objs[i]? = some o) (hoy : o.fid = y) (ho' : o'.fid = y)
     (hem : ∀ m ∈ em, Msg.flow? m = some y ∧ m.isConnect = false)
     (hS : lookup p.a.flows y ≠ none → ∀ oR fwd bwd r eof l, DirRel o oR fwd ([] ++ bwd) (p.ga.wlog i) r eof l →
@@ -143,7 +143,7 @@ theorem inv_of_sender_upd {p : PS} {e' : EP} {g' : Ghost} {i y : Nat} {o o' : Ob
     (hwire : noPushAfterEnd (em.filterMap toItem) = true ∧ (o.finishSent = true → Link.pushes (em.filterMap toItem) = []) ∧
              (Link.hasEnd (em.filterMap toItem) = true → o'.finishSent = true))
     (hg : ∀ k, k ≠ i → g'.wlog k = p.ga.wlog k ∧ g'.rlog k = p.ga.rlog k ∧ g'.eof k = p.ga.eof k) :
-    Inv { p with a := e', ga := g' } := by
+    InvCore { p with a := e', ga := g' } := by
   have hackm : ∀ m ∈ em, ackOf m = none := by
     intro m hm
     cases hk : ackOf m with
@@ -162,11 +162,11 @@ theorem inv_of_sender_upd {p : PS} {e' : EP} {g' : Ghost} {i y : Nat} {o o' : Ob
     ⟨r1, r2⟩ (by simp) hg
 
 /-- `poll_write`. -/
-theorem inv_write {p : PS} (h : Inv p) (hd : Nat) (d : Bytes) :
-    Inv { p with a := (appWrite p.a hd d).1,
-                 ga := match (appWrite p.a hd d).2, p.a.handles[hd]? with
-                       | .wrote _, some i => p.ga.addW i d
-                       | _, _ => p.ga } := by
+theorem inv_write {p : PS} (h : InvCore p) (hd : Nat) (d : Bytes) :
+    InvCore { p with a := (appWrite p.a hd d).1,
+                     ga := match (appWrite p.a hd d).2, p.a.handles[hd]? with
+                           | .wrote _, some i => p.ga.addW i d
+                           | _, _ => p.ga } := by
   cases hh : p.a.handleObj hd with
   | none =>
     have : appWrite p.a hd d = (p.a, .badHandle) := by unfold appWrite; rw [hh]
@@ -212,7 +212,7 @@ theorem acks_flow {y : Nat} {em : List Msg} (h : AcksOf y em) :
 /-- An update that leaves the sending role of the object alone (reads): the receiving role's
     transformers are given. -/
 theorem inv_of_reader_upd {p : PS} {e' : EP} {g' : Ghost} {i y : Nat} {o o' : Obj} {em : List Msg}
-    (h : Inv p) (s : Eff (· = y) p.a e') (u : LocalUpd p.a e' i o' em [])
+    (h : InvCore p) (s : Eff (· = y) p.a e') (u : LocalUpd p.a e' i o' em [])
     (ho : p.a.objs[i]? = some o) (hoy : o.fid = y) (ss : SenderSame o o') (hak : AcksOf y em)
     (gw : g'.wlog i = p.ga.wlog i)
     (hR : ReaderOk o' (g'.eof i) → ∀ oS fwd bwd w l, DirRel oS o ([] ++ fwd) bwd w (p.ga.rlog i) (p.ga.eof i) l →
@@ -222,7 +222,7 @@ theorem inv_of_reader_upd {p : PS} {e' : EP} {g' : Ghost} {i y : Nat} {o o' : Ob
     (hok : ReaderOk o' (g'.eof i) → ReaderOk o (p.ga.eof i))
     (hHalf : o.rxq = [] → o.buf = [] → o.senderAlive = true → False)
     (hg : ∀ k, k ≠ i → g'.wlog k = p.ga.wlog k ∧ g'.rlog k = p.ga.rlog k ∧ g'.eof k = p.ga.eof k) :
-    Inv { p with a := e', ga := g' } := by
+    InvCore { p with a := e', ga := g' } := by
   obtain ⟨hemf, hemi, hemr⟩ := acks_flow hak
   exact inv_of_local (ba' := p.ba) (hd := []) (fbaT := fl _ (pathBA p)) h s u ho hoy (by rw [ss.fid, hoy]) hemf (Or.inl rfl) rfl rfl
     (hS_of_eq ss.credit ss.finishSent gw hemi) hR hRA hok
@@ -268,12 +268,12 @@ theorem readGhost_facts (e : EP) (g : Ghost) (res : Res) (i : Nat) (o : Obj) (ho
   | _ => exact ⟨rfl, fun _ _ => ⟨rfl, rfl⟩, fun hh => Or.inl hh⟩
 
 /-- `poll_read`. -/
-theorem inv_read {p : PS} (h : Inv p) (hd n : Nat) :
-    Inv { p with a := (appRead p.a hd n).1,
-                 ga := match (appRead p.a hd n).2, p.a.handles[hd]? with
-                       | .data bs, some i => p.ga.addR i bs
-                       | .eof, some i => p.ga.noteEof p.a i
-                       | _, _ => p.ga } := by
+theorem inv_read {p : PS} (h : InvCore p) (hd n : Nat) :
+    InvCore { p with a := (appRead p.a hd n).1,
+                     ga := match (appRead p.a hd n).2, p.a.handles[hd]? with
+                           | .data bs, some i => p.ga.addR i bs
+                           | .eof, some i => p.ga.noteEof p.a i
+                           | _, _ => p.ga } := by
   cases hh : p.a.handleObj hd with
   | none =>
     have : appRead p.a hd n = (p.a, .badHandle) := by unfold appRead; rw [hh]
@@ -350,7 +350,7 @@ theorem inv_read {p : PS} (h : Inv p) (hd n : Nat) :
           · exact Or.inl h1
     · obtain ⟨o', em, u, ss, ak⟩ := appRead_coarse p.a hd i n o hh h.runA.outClosed
       obtain ⟨gw, gk, ge⟩ := readGhost_facts p.a p.ga (appRead p.a hd n).2 i o ho
-      show Inv { p with a := (appRead p.a hd n).1, ga := readGhost p.a p.ga (appRead p.a hd n).2 i }
+      show InvCore { p with a := (appRead p.a hd n).1, ga := readGhost p.a p.ga (appRead p.a hd n).2 i }
       refine inv_of_reader_upd h s u ho rfl ss ak (by rw [gw]) ?_ ?_ ?_ ?_ (fun k hk => ⟨by rw [gw], gk k hk⟩)
       · intro _ oS fwd bwd w l dr
         exfalso; apply hne
@@ -372,7 +372,7 @@ theorem inv_read {p : PS} (h : Inv p) (hd n : Nat) :
         apply hne; rw [a]; intro d hd; cases hd
 
 /-- `poll_shutdown`. -/
-theorem inv_shutdown {p : PS} (h : Inv p) (hd : Nat) : Inv { p with a := (appShutdown p.a hd).1 } := by
+theorem inv_shutdown {p : PS} (h : InvCore p) (hd : Nat) : InvCore { p with a := (appShutdown p.a hd).1 } := by
   cases hh : p.a.handleObj hd with
   | none =>
     have : appShutdown p.a hd = (p.a, .badHandle) := by unfold appShutdown; rw [hh]
@@ -409,8 +409,8 @@ theorem DirRelA.dropAfterEof {oR : Obj} {fwd : List Msg} {w r : Bytes} {l : Link
 
 /-- Dropping the `MuxStream`: the task is notified; the receiving role is no longer observed (unless
     end-of-stream had been seen, after which nothing changes any more). -/
-theorem inv_dropStream {p : PS} (h : Inv p) (hd : Nat) (dl : List Nat) :
-    Inv { p with a := (appDropStream p.a hd).1, ga := { p.ga with dropped := dl } } := by
+theorem inv_dropStream {p : PS} (h : InvCore p) (hd : Nat) (dl : List Nat) :
+    InvCore { p with a := (appDropStream p.a hd).1, ga := { p.ga with dropped := dl } } := by
   cases hh : p.a.handleObj hd with
   | none =>
     have : appDropStream p.a hd = (p.a, .badHandle) := by unfold appDropStream; rw [hh]
